@@ -216,7 +216,11 @@ fn build_response(version: &str, code: u16, headers: &[(String, String)], body: 
     let mut r = if via_new { Response::new(sc, body) } else { Response::empty(sc).with_bytes(body) };
     r.version = version.to_string();
     for (n, v) in headers {
-        r = r.with_header(n.as_str(), v);
+        // second variant: a Set-Cookie that is a plain pair goes through SetCookie / with_cookie
+        match (via_new && n.eq_ignore_ascii_case("set-cookie") && !v.contains(';'), v.split_once('=')) {
+            (true, Some((cn, cv))) => r = r.with_cookie(SetCookie::new(cn, cv)),
+            _ => r = r.with_header(n.as_str(), v),
+        }
     }
     Some(r)
 }
@@ -348,7 +352,7 @@ fn replay(level: usize) {
                             t.samples.push(json!({"response": r, "serialised": show(&bytes)}));
                         }
                         // parse what the real serialiser produced with the real parser
-                        if rt && !via_new {
+                        if rt && (!via_new || headers.len() >= 30) {
                             let mut exp_h = headers.clone();
                             let _ = &mut exp_h;
                             for cuts in plans(bytes.len(), &mut rng, false, 1) {
@@ -529,7 +533,9 @@ fn random(n: usize, maxbody: usize) {
         let small = i % 4 == 3; // every 4th case is small enough for TLC to parse the bytes themselves
         let code = *rng.pick(&ALL_CODES);
         let version = if rng.chance(1, 5) { "HTTP/1.0" } else { "HTTP/1.1" };
-        let nh = if small { rng.below(4) } else { rng.below(41) };
+        // 0..40 fields; two cases in five have 33..48 (a sort that is not stable only shows above 32 fields)
+        let nh = if small { rng.below(4) } else if rng.chance(2, 5) { rng.range(33, 48) } else { rng.below(41) };
+        let dup_share = rng.range(2, 4); // 1 in dup_share plain fields is an x-dup
         let body: Vec<u8> = if bodiless(code) { vec![] } else if small {
             let k = rng.below(12);
             (0..k).map(|_| *rng.pick(b"ab\r\n0:; Z")).collect()
@@ -549,7 +555,7 @@ fn random(n: usize, maxbody: usize) {
                     cookies.push(j);
                     resp = resp.with_cookie(c);
                 } else {
-                    let name = if rng.chance(1, 3) { "x-dup" } else { *rng.pick(&NAMES) };
+                    let name = if rng.chance(1, dup_share) { "x-dup" } else { *rng.pick(&NAMES) };
                     let value = rand_token(&mut rng, 24);
                     headers.push((name.to_string(), value.clone()));
                     resp = resp.with_header(name, value);
